@@ -590,8 +590,17 @@ def correspondence(R, procs):
                         nstale += 1
         d = compare(r["prog"], r["impl"], mo)
         if d is not None:
-            R.mismatch("C06_Cache.step/read vs tensordict", {"spec": r["prog"]["spec"], "ops": r["prog"]["ops"][:d.get("step", 0) + 1], "stream": "model"},
-                       {k: v for k, v in d.items() if k != "model"}, d.get("model"))
+            # count a disagreement only if it shows again when the same history is run once more (here, in this process):
+            # address numbering and garbage collection are not part of the model
+            r2 = _run_m(r["prog"])
+            d2 = None
+            if "crash" not in r2 and not r2.get("timeout") and r2.get("impl"):
+                d2 = compare(r["prog"], r2["impl"], R.model([r2["line"]])[0])
+            if d2 is None:
+                R.extra["model_mismatches_not_reproduced"] = R.extra.get("model_mismatches_not_reproduced", 0) + 1
+                continue
+            R.mismatch("C06_Cache.step/read vs tensordict", {"spec": r["prog"]["spec"], "ops": r["prog"]["ops"], "stream": "model", "first_difference_at_executed_op": d2.get("step")},
+                       {k: v for k, v in d2.items() if k != "model"}, d2.get("model"))
     R.extra["model_hits_compared"] = nhit
     R.extra["model_stale_hits_predicted_and_observed"] = nstale
     R.extra["model_histories"] = len(keep)
